@@ -132,16 +132,23 @@ Fixpoint pdf_roots_b (k : nat) (a : Z) (f : list Z) : bool :=
   | S k' => (pdf_g_eval f a =? 0) && pdf_roots_b k' (a * 3 mod 929) f
   end.
 
-Definition pdf_factors_roots_b : bool :=
-  forallb (fun l =>
-    match zget pdf_correction_factors l with
-    | Some f => (zlength f =? pdf_ec_count l) && pdf_roots_b (Z.to_nat (pdf_ec_count l)) 3 f
-                && forallb (fun c => (0 <=? c) && (c <? 929)) f
-    | None => false
-    end) pdf_levels.
+Definition pdf_level_roots_b (l : Z) : bool :=
+  match zget pdf_correction_factors l with
+  | Some f => (zlength f =? pdf_ec_count l) && pdf_roots_b (Z.to_nat (pdf_ec_count l)) 3 f
+              && forallb (fun c => (0 <=? c) && (c <? 929)) f
+  | None => false
+  end.
+
+Definition pdf_factors_roots_b : bool := forallb pdf_level_roots_b pdf_levels.
 
 Lemma pdf_tab_factors_roots : pdf_factors_roots_b = true.
 Proof. vm_cast_no_check (eq_refl true). Qed.
+
+Lemma pdf_tab_level_roots l : 0 <= l <= 8 -> pdf_level_roots_b l = true.
+Proof.
+  intros Hl. pose proof pdf_tab_factors_roots as H. unfold pdf_factors_roots_b in H.
+  rewrite forallb_forall in H. apply H. unfold pdf_levels. simpl. lia.
+Qed.
 
 (* ---------- text sub-mode tables ---------- *)
 
